@@ -9,10 +9,10 @@ SPECS = [
     dict(name="repeat_axis", qual=_Q, start=r"^repeat_axis = ", end=None, kind="expr", ret="Z",
          inputs=[("channels_first", "bool")]),
     # stacked_shape[repeat_axis] *= n_stack
-    dict(name="stacked_dim", qual=_Q, start=r"^stacked_shape\[repeat_axis\] \*= ", end=None,
+    dict(name="stacked_dim", qual=_Q, start=r"^stacked_shape\[repeat_axis\]", end=None,
          inputs=[("dim", "Z"), ("n_stack", "Z")], subst={"stacked_shape[repeat_axis]": "dim"}, outputs=[("dim", "Z")]),
     # the default for non-image spaces when channels_order is None
-    dict(name="default_channels_first", qual=_Q, start=r"^channels_first = False", end=None, kind="expr", ret="bool", inputs=[]),
+    dict(name="default_channels_first", qual=_Q, start=r"^channels_first = (True|False)$", end=None, kind="expr", ret="bool", inputs=[]),
     # update(): shift = -observations.shape[self.stack_dimension]
     dict(name="update_shift", qual="StackedObservations.update", start=r"^shift = ", end=None, kind="expr", ret="Z",
          inputs=[("frame", "Z")], subst={"observations.shape[self.stack_dimension]": "frame"}),
